@@ -178,6 +178,152 @@ fn run(limit: usize, depth: usize, ch: &mut Chooser, log: &mut Vec<String>) -> R
     Ok(format!("{submitted}|{rejected}|{panics}|{retired}"))
 }
 
+// ---------------------------------------------------------------------------------------------
+// The dispatcher's pool: ONE pool shared by `Dispatcher::dispatch_blocking` and by the worker
+// runtimes' `spawn_blocking` -- its thread limit bounds the jobs of both kinds together.
+// ---------------------------------------------------------------------------------------------
+
+fn run_dispatcher(limit: usize, workers: usize, depth: usize, ch: &mut Chooser, log: &mut Vec<String>) -> Result<String, (String, String)> {
+    use std::num::NonZeroUsize;
+    let fail = |k: &str, d: String| -> Result<String, (String, String)> { Err((k.to_string(), d)) };
+    let mut pb = compio_driver::ProactorBuilder::new();
+    pb.thread_pool_limit(limit);
+    let disp = compio_dispatcher::Dispatcher::builder()
+        .worker_threads(NonZeroUsize::new(workers).unwrap())
+        .proactor_builder(pb)
+        .build()
+        .map_err(|e| ("setup".to_string(), format!("{e}")))?;
+    let n_max = 4;
+    let sh = Arc::new(Shared {
+        running: AtomicUsize::new(0),
+        max_running: AtomicUsize::new(0),
+        started: (0..n_max).map(|_| AtomicUsize::new(0)).collect(),
+        finished: (0..n_max).map(|_| AtomicUsize::new(0)).collect(),
+        gates: (0..n_max).map(|_| Gate::default()).collect(),
+    });
+    let mk_job = |i: usize, s: Arc<Shared>| {
+        move || {
+            s.started[i].fetch_add(1, SeqCst);
+            let n = s.running.fetch_add(1, SeqCst) + 1;
+            s.max_running.fetch_max(n, SeqCst);
+            {
+                let g = &s.gates[i];
+                let mut o = g.open.lock().unwrap();
+                while !*o {
+                    o = g.cv.wait(o).unwrap();
+                }
+            }
+            s.running.fetch_sub(1, SeqCst);
+            s.finished[i].fetch_add(1, SeqCst);
+        }
+    };
+    let mut accepted = 0usize; // jobs the pool or a worker runtime has been given
+    let mut opened = vec![false; n_max];
+    let mut kinds = String::new();
+    let started_now = |sh: &Shared, n: usize| (0..n).filter(|&i| sh.started[i].load(SeqCst) > 0).count();
+    for _ in 0..depth {
+        let parked: Vec<usize> = (0..accepted).filter(|&i| sh.started[i].load(SeqCst) > 0 && !opened[i]).collect();
+        let mut menu: Vec<(u8, usize)> = vec![(0, 0)];
+        if accepted < n_max {
+            menu.push((1, 0));
+            menu.push((2, 0));
+        }
+        for &i in &parked {
+            menu.push((3, i));
+        }
+        let (op, arg) = menu[ch.pick(menu.len())];
+        let done_before = (0..accepted).filter(|&i| sh.finished[i].load(SeqCst) > 0).count();
+        match op {
+            0 => break,
+            1 => {
+                let i = accepted;
+                let busy = parked.len();
+                match disp.dispatch_blocking(mk_job(i, sh.clone())) {
+                    Ok(rx) => {
+                        std::mem::forget(rx);
+                        log.push("dispatch_blocking->accepted".into());
+                        kinds.push('b');
+                        accepted += 1;
+                    }
+                    Err(_) => {
+                        log.push("dispatch_blocking->handed-back".into());
+                        if busy < limit {
+                            return fail("dispatcher:rejected-below-limit", format!("dispatch_blocking handed the job back although only {busy} blocking jobs are running, thread_pool_limit {limit}"));
+                        }
+                    }
+                }
+            }
+            2 => {
+                let i = accepted;
+                let job = mk_job(i, sh.clone());
+                match disp.dispatch(move || async move {
+                    let _ = compio_runtime::spawn_blocking(job).await;
+                }) {
+                    Ok(rx) => std::mem::forget(rx),
+                    Err(_) => return fail("dispatcher:dispatch-failed", "dispatch of an async task failed".into()),
+                }
+                log.push("dispatch(spawn_blocking)".into());
+                kinds.push('s');
+                accepted += 1;
+            }
+            _ => {
+                let g = &sh.gates[arg];
+                *g.open.lock().unwrap() = true;
+                g.cv.notify_all();
+                opened[arg] = true;
+                if !wait_until(|| sh.finished[arg].load(SeqCst) == 1, 2000) {
+                    return fail("dispatcher:job-never-finishes", format!("gate of job {arg} opened, body did not finish within 2 s"));
+                }
+                log.push(format!("open-gate({arg})"));
+            }
+        }
+        // quiescence: as many jobs parked at their gates as the limit allows
+        let done = (0..accepted).filter(|&i| sh.finished[i].load(SeqCst) > 0).count().max(done_before);
+        let want = accepted.min(done + limit);
+        if !wait_until(|| started_now(&sh, accepted) >= want, 3000) {
+            return fail("dispatcher:accepted-job-never-starts", format!("{accepted} blocking jobs accepted, {done} finished, thread_pool_limit {limit}: only {} have started within 3 s", started_now(&sh, accepted)));
+        }
+        // give an over-eager second pool the chance to show itself
+        std::thread::sleep(Duration::from_millis(3));
+        let m = sh.max_running.load(SeqCst);
+        if m > limit {
+            return fail("dispatcher:limit-exceeded", format!("{m} blocking jobs ran at once ({kinds}: b = dispatch_blocking, s = spawn_blocking in a dispatched task), thread_pool_limit {limit}"));
+        }
+    }
+    // release everything: open the gates of started jobs until all accepted jobs have finished
+    let t0 = Instant::now();
+    loop {
+        for i in 0..accepted {
+            if sh.started[i].load(SeqCst) > 0 && !opened[i] {
+                let g = &sh.gates[i];
+                *g.open.lock().unwrap() = true;
+                g.cv.notify_all();
+                opened[i] = true;
+            }
+        }
+        if (0..accepted).all(|i| sh.finished[i].load(SeqCst) == 1) {
+            break;
+        }
+        if t0.elapsed() > Duration::from_secs(4) {
+            return fail("dispatcher:job-never-finishes", "not every accepted blocking job finished at teardown".into());
+        }
+        std::thread::sleep(Duration::from_micros(300));
+    }
+    let m = sh.max_running.load(SeqCst);
+    if m > limit {
+        return fail("dispatcher:limit-exceeded", format!("{m} blocking jobs ran at once ({kinds}), thread_pool_limit {limit}"));
+    }
+    for i in 0..accepted {
+        if sh.started[i].load(SeqCst) != 1 {
+            return fail("dispatcher:job-started-twice", format!("job {i} started {} times", sh.started[i].load(SeqCst)));
+        }
+    }
+    // join the dispatcher on a helper runtime-less thread: block_on is not needed, join is async ->
+    // drop instead (workers exit when the channel closes)
+    drop(disp);
+    Ok(format!("{accepted}|{kinds}|{m}"))
+}
+
 fn main() {
     let args = vcore::parse_args();
     vcore::quiet_panics();
@@ -221,8 +367,41 @@ fn main() {
             }
         }
     });
+    // the dispatcher's shared pool
+    rep.must_reach("dispatcher-both-kinds-of-blocking-jobs-at-the-limit");
+    let ditems: Vec<(usize, usize, u32)> = [1usize, 2].iter().flat_map(|&l| [1usize, 2].into_iter().flat_map(move |w| (0..3u32).map(move |f| (l, w, f)))).collect();
+    let ddepth = args.tier.pick(4, 5);
+    vcore::par_for_each(&ditems, |_, &(limit, workers, first)| {
+        let mut prefix = vec![first];
+        loop {
+            let mut ch = Chooser::new(prefix.clone(), u32::MAX);
+            let mut log = Vec::new();
+            let r = vcore::catch(|| run_dispatcher(limit, workers, ddepth, &mut ch, &mut log)).unwrap_or_else(|p| Err(("dispatcher:panic".into(), p)));
+            rep.add_execution(log.len() as u64 + 1);
+            rep.add_states(1);
+            match r {
+                Ok(sig) => {
+                    let p: Vec<&str> = sig.split('|').collect();
+                    if p[1].contains('b') && p[1].contains('s') && p[2].parse::<usize>().unwrap_or(0) == limit {
+                        rep.count("dispatcher-both-kinds-of-blocking-jobs-at-the-limit", 1);
+                    }
+                    rep.outcome(format!("disp|{limit}|{workers}|{sig}"));
+                }
+                Err((key, detail)) => rep.violation(Violation {
+                    key: format!("realpool:{key}"),
+                    what: format!("Dispatcher(workers={workers}, thread_pool_limit={limit}) program={log:?}: {detail}"),
+                    replay: json!({"engine":"e_c17","family":"dispatcher","thread_limit":limit,"workers":workers,"choices":ch.choices(),"program":log}),
+                }),
+            }
+            match vcore::next_prefix(&ch.trace) {
+                Some(p) if p[0] == first => prefix = p,
+                _ => break,
+            }
+        }
+    });
+    rep.extra("dispatcher_bounds", json!({"program_depth": ddepth, "thread_pool_limit": [1, 2], "worker_threads": [1, 2], "jobs_max": 4, "steps": ["dispatch_blocking(gated job)", "dispatch(async { spawn_blocking(gated job) })", "open gate i"]}));
     rep.extra("bounds", json!({"program_depth": depth, "thread_limit": [1, 2], "jobs_max": 4, "idle_timeout_ms": IDLE.as_millis() as u64}));
-    rep.rule("every sequence up to program_depth over {submit normal job, submit panicking job, open gate i, idle pause (4x the idle timeout)} on the real AsyncifyPool with real threads; every job body parks on a harness gate, the harness waits for quiescence after each step");
+    rep.rule("(dispatcher) every sequence up to depth 4/5 over {dispatch_blocking(gated job), dispatch(async task running spawn_blocking(gated job)), open gate i} on a real Dispatcher with thread_pool_limit {1,2} x worker_threads {1,2}: blocking jobs of both kinds together never exceed the limit, dispatch_blocking hands a job back only when the pool is saturated, every accepted job starts as soon as a slot is free and finishes once; (pool) every sequence up to program_depth over {submit normal job, submit panicking job, open gate i, idle pause (4x the idle timeout)} on the real AsyncifyPool with real threads; every job body parks on a harness gate, the harness waits for quiescence after each step");
     rep.assume("real time only as a watchdog (2 s) and to let idle workers retire (4x the 15 ms idle timeout)");
     rep.finish();
 }
